@@ -17,12 +17,12 @@ RULE_TEXT = ("One always/partly failing step under wait_fixed, wait_chain (2-4 d
              "Non-trivial: >=2 retries observed; distinct = (strategy kind, number of retries, parameters).")
 COMPONENTS = {"real": ["workflows.* engine, retry_policy"], "stub": ["llama_index_instrumentation"], "sim": ["loop, clocks"]}
 ASSUMPTIONS = ["tenacity indexing as quoted in the property statement: first retry = first chain strategy, initial/multiplier delay"]
-EXPECTED_PROBES = ["contended-arm", "retry-waited-for-slot", "chain-with-attempt-dependent-tail", "retry>=2", "chain", "exp", "inc", "random-family"]
+EXPECTED_PROBES = ["retried-under-a-time-budget", "contended-arm", "retry-waited-for-slot", "chain-with-attempt-dependent-tail", "retry>=2", "chain", "exp", "inc", "random-family"]
 LEVEL_TEXT = ("Seeded exploration of wait strategies x failure counts in virtual time, so 'earlier' has no scheduling slack; "
               "lower bound checked for every retry, exact documented delay for the first retry of deterministic strategies.")
 LEVEL_NOTE = "Trusted: simulator clock; reference delay table in worlds/policies.py."
 
-CFG = {"driver": "result", "grid": [0, 1, 2], "p_handler": 0, "rich_waits": True, "stop_attempts_only": True, "p_contend": 40}
+CFG = {"driver": "result", "grid": [0, 1, 2], "p_handler": 0, "rich_waits": True, "stop_attempts_only": True, "p_contend": 40, "p_stop_deadline": 35}
 
 
 def gen(tape, cfg):
@@ -68,6 +68,8 @@ def check(world, spec, outcome) -> None:
                               f"(first chain strategy / initial delay)", cur["seq"], strategy=wk, index=index)
             if contended and start_gap > gap + 1e-9:
                 world.probe("retry-waited-for-slot")
+    if pol["stop"][0] == "any" and nretry:
+        world.probe("retried-under-a-time-budget")
     if nretry >= 2:
         world.probe("retry>=2")
     for name in ("chain", "exp", "inc"):
